@@ -197,7 +197,7 @@ class Ctx:
 
     def file_obligations(self, vfile, b, names=None):
         ok = b['vo_ok'].get(vfile, False)
-        ths = names if names is not None else theorems_in(vfile)
+        ths = names if names is not None else (theorems_in(vfile) if vfile.startswith(('Properties/', 'gen/')) else ['(file compiles: %d lemmas)' % len(theorems_in(vfile))])
         for t in ths:
             self.add_obligation('%s:%s' % (vfile, t), ok, '' if ok else coq_error_for(vfile, b['log'])[:600])
         return ok
@@ -217,6 +217,7 @@ class Ctx:
     # ---- violations
     def violation(self, signature, replay, found_input=True):
         """signature: short stable string; replay: dict"""
+        replay = dict(replay, property=self.pid, signature=signature)
         for fid, f in self.findings.items():
             if f.get('status') == 'known' and self.pid in f['property'] and match_finding(f, signature, replay):
                 if (fid, f['what']) not in self.known:
